@@ -233,6 +233,7 @@ class HarnessSpec:
     expect_covers: int | None = None  # if set, that many covers must be SATISFIED
     exploratory: bool = False        # result recorded, never part of the exit status
     qual: str = ""                   # module path prefix ("a::b::") for --exact matching
+    solver: str = ""                 # per-harness SAT back end (overrides the group's --solver)
 
 
 @dataclass
@@ -306,7 +307,15 @@ def run_kani(pkg_dir: Path, target_dir: Path, spec: HarnessSpec, log_dir: Path,
         # only on a second run of a failed harness: the trace output multiplies formula size and
         # kani-driver's memory use
         cmd += ["-Z", "concrete-playback", f"--concrete-playback={playback}"]
-    cmd += extra_args or []
+    extra_args = list(extra_args or [])
+    if spec.solver:
+        # `// @solver cadical|minisat|kissat`: replaces the group's choice for this harness
+        while "--solver" in extra_args:
+            i = extra_args.index("--solver")
+            del extra_args[i:i + 2]
+        if spec.solver != "default":
+            extra_args += ["--solver", spec.solver]
+    cmd += extra_args
     t0 = time.time()
     with open(log_path, "w") as lf:
         p = subprocess.Popen(cmd, cwd=pkg_dir, stdout=lf, stderr=subprocess.STDOUT,
@@ -447,6 +456,7 @@ def parse_harness_specs(src: str, defaults: dict | None = None) -> list[HarnessS
             functions=[f.strip() for f in meta.get("functions", "").split(",") if f.strip()],
             bounds=meta.get("bounds", ""),
             exploratory=meta.get("exploratory", "") in ("1", "true", "yes"),
+            solver=meta.get("solver", ""),
         ))
     return specs
 
